@@ -88,6 +88,8 @@ struct Plan {
   size_t nops() const { size_t n = setup.size(); for (auto& t : tasks) n += t.ops.size(); return n; }
 };
 
+void procstate_capture();   // C16: process state other than memory, baseline before the first op (ops_exec.cc)
+void procstate_final();
 std::string plan_to_text(const Plan& p);
 bool plan_from_text(const std::string& txt, Plan& p, std::string* err);
 uint64_t plan_hash(const Plan& p);
